@@ -125,23 +125,52 @@ def run(ctx):
            "coefficient")
 
     # quotient / power guards
-    for slot, ncls, guarded in (("map_quotient", "Quotient", ["d_den"]),
-                                ("map_power", "Power", ["d_exponent", "d_base"])):
+    # (path rule: a result is returned only after the stride dict of the
+    # denominator / exponent / base has been established to look like {1: k})
+    from ..summary import facts_of
+    for slot, ncls, guarded in (("map_quotient", "Quotient", ["denominator"]),
+                                ("map_power", "Power", ["exponent", "base"])):
         mem = model.lookup(cc, slot)
-        n_raise = 0
+        n_raise = n_ret = 0
+        ok = True
+        missing = set()
         for ps in handler_summaries(model, nt.get(ncls), mem.node):
             if ps.term == "raise":
                 n_raise += 1
-        tests = [ast.unparse(i.test).replace(" ", "") for i in ast.walk(mem.node)
-                 if isinstance(i, ast.If) and i.body and isinstance(i.body[0],
-                                                                    ast.Raise)]
-        ok = all(f"len({g})>1or1notin{g}" in tests for g in guarded)
+                continue
+            if ps.term != "return":
+                continue
+            n_ret += 1
+            facts = [f for _, pol, c in ps.conds if isinstance(c, tuple)
+                     for f in facts_of(c, pol)]
+            for fld in guarded:
+                D = ("rec", ("field", fld), True, ())
+                single = has_one = False
+                for v, pol in facts:
+                    if not (isinstance(v, tuple) and v[0] == "compare"
+                            and len(v[1]) == 1):
+                        continue
+                    op, left, right = v[1][0], v[2], v[3][0]
+                    if left == ("len", D) and right[0] == "const":
+                        k = right[1]
+                        if (op == "Gt" and k == 1 and not pol) or \
+                                (op == "LtE" and k == 1 and pol) or \
+                                (op == "Eq" and k == 1 and pol) or \
+                                (op == "GtE" and k == 2 and not pol) or \
+                                (op == "Lt" and k == 2 and pol):
+                            single = True
+                    if left == ("const", 1) and right == D:
+                        if (op == "In" and pol) or (op == "NotIn" and not pol):
+                            has_one = True
+                if not (single and has_one):
+                    ok = False
+                    missing.add(fld)
         ctx.ob(f"P/CoefficientCollector/{slot}/nonlinear-raises", ok and
-               n_raise >= len(guarded), where(mem),
-               f"raises unless {guarded} are constants" if ok else
-               f"CoefficientCollector.{slot} does not refuse when "
-               f"{' / '.join(guarded)} carries a variable: non-affine input "
-               "yields coefficients")
+               n_raise >= 1 and n_ret >= 1, where(mem),
+               f"raises unless the coefficients of {guarded} are constants" if ok
+               else f"CoefficientCollector.{slot} does not refuse when "
+               f"{' / '.join(sorted(missing) or guarded)} carries a variable: "
+               "non-affine input yields coefficients")
     mem = model.lookup(cc, "map_quotient")
     NUM = ("rec", ("field", "numerator"), True, ())
     DEN = ("rec", ("field", "denominator"), True, ())
@@ -241,6 +270,150 @@ def _exact_divisions(ctx, model):
     ctx.floor("floor divisions in gaussian_elimination", n, 4)
 
 
+def _matrix_names(fn):
+    """names bound to  <np>.zeros(...)  in fn: the coefficient matrix (first)
+    and the right-hand side (second), by order of creation"""
+    out = []
+    for st in fn.body:
+        if isinstance(st, ast.Assign) and isinstance(st.value, ast.Call) and \
+                ast.unparse(st.value.func).endswith("zeros") and isinstance(
+                st.targets[0], ast.Name):
+            out.append(st.targets[0].id)
+    return out
+
+
+def _solver_assembly(ctx, m, fn, loc):
+    """both sides of an equation (and equal keys) contribute to the same cell
+    of the matrices, so the assembly must *add* each contribution"""
+    mats = set(_matrix_names(fn))
+    if len(mats) != 2:
+        raise AnalysisError("solve_affine_equations_for: the two zero-initialised "
+                            "matrices were not found")
+    # the loop that runs over the two sides of one equation
+    side_loops = [lp_ for lp_ in ast.walk(fn) if isinstance(lp_, ast.For)
+                  and isinstance(lp_.iter, (ast.List, ast.Tuple))
+                  and len(lp_.iter.elts) == 2]
+    if len(side_loops) != 1:
+        raise AnalysisError("solve_affine_equations_for: the loop over the two "
+                            "sides of an equation was not found")
+    stores = []
+    for st in ast.walk(side_loops[0]):
+        if isinstance(st, (ast.Assign, ast.AugAssign)):
+            tgts = st.targets if isinstance(st, ast.Assign) else [st.target]
+            for t in tgts:
+                if isinstance(t, ast.Subscript) and isinstance(
+                        t.value, ast.Name) and t.value.id in mats:
+                    stores.append((st, t))
+    ctx.floor("matrix stores in the assembly loop", len(stores), 3)
+    for st, t in stores:
+        ok = isinstance(st, ast.AugAssign) and isinstance(st.op, ast.Add)
+        kind = ast.unparse(t.value)
+        ctx.ob(f"K/solve_affine/assembly-accumulates:{ast.unparse(t)}", ok,
+               m.loc(st),
+               "contributions are added to the cell" if ok else
+               f"'{ast.unparse(st)}' overwrites the cell: when both sides of an "
+               "equation (x + 1 == n + 2) contribute to the same entry of "
+               f"{kind}, the first contribution is lost and the returned "
+               "assignment does not satisfy the equation")
+
+
+def _solver_refusals(ctx, m, fn, lp, loc):
+    """necessary conditions for 'raises when an unknown is not uniquely
+    determined' and 'accepted systems are satisfied': some refusal must look at
+    the right-hand side (an inconsistent system x == 5, x == 6 differs from a
+    consistent one only there), and some refusal must look beyond the current
+    unknown's own column and pivot entry (two unknowns sharing one equation,
+    x + y == n, have a single non-zero entry each in their columns)"""
+    mats = _matrix_names(fn)
+    if len(mats) != 2:
+        raise AnalysisError("solve_affine_equations_for: matrices not found")
+    MAT, RHS = mats
+    # statements after the elimination call
+    after = False
+    tail = []
+    for st in fn.body:
+        if after:
+            tail.append(st)
+        if any(isinstance(c, ast.Call) and ast.unparse(c.func).endswith(
+                "gaussian_elimination") for c in ast.walk(st)):
+            after = True
+    if not tail:
+        raise AnalysisError("solve_affine_equations_for: elimination call not "
+                            "found")
+    jvar = None
+    if isinstance(lp.target, ast.Tuple) and isinstance(lp.target.elts[0],
+                                                        ast.Name):
+        jvar = lp.target.elts[0].id
+
+    def local_defs(name, scope):
+        return [st.value for st in ast.walk(scope) if isinstance(st, ast.Assign)
+                and any(name in {n_.id for n_ in ast.walk(t)
+                                 if isinstance(n_, ast.Name)}
+                        for t in st.targets)]
+
+    def reads(test, scope, depth=0):
+        """subscript reads of the two matrices a test depends on, through
+        local names"""
+        out = []
+        for n_ in ast.walk(test):
+            if isinstance(n_, ast.Subscript) and isinstance(n_.value, ast.Name) \
+                    and n_.value.id in (MAT, RHS):
+                out.append(n_)
+            elif isinstance(n_, ast.Name) and n_.id in (MAT, RHS):
+                # whole-matrix use (e.g. mat.any(axis=1)) counts as a wide read
+                par_sub = False
+                for s_ in ast.walk(test):
+                    if isinstance(s_, ast.Subscript) and s_.value is n_:
+                        par_sub = True
+                if not par_sub:
+                    out.append(n_)
+            elif isinstance(n_, ast.Name) and depth < 4:
+                for d in local_defs(n_.id, scope):
+                    out.extend(reads(d, scope, depth + 1))
+        return out
+
+    guards = []
+    for st in tail:
+        for i_ in ast.walk(st):
+            if isinstance(i_, ast.If) and any(isinstance(r, ast.Raise)
+                                              for b in i_.body
+                                              for r in ast.walk(b)):
+                guards.append(i_.test)
+            if isinstance(i_, ast.Assert):
+                guards.append(i_.test)
+    scope = ast.Module(body=tail, type_ignores=[])
+    sees_rhs = False
+    sees_beyond = False
+    for t in guards:
+        for r in reads(t, scope):
+            name = r.value.id if isinstance(r, ast.Subscript) else r.id
+            if name == RHS:
+                sees_rhs = True
+            if name == MAT:
+                if not isinstance(r, ast.Subscript):
+                    sees_beyond = True
+                    continue
+                sl = r.slice
+                elts = sl.elts if isinstance(sl, ast.Tuple) else [sl]
+                # own column  mat[:, j]  or own pivot  mat[row, j]
+                own = len(elts) == 2 and isinstance(elts[1], ast.Name) and \
+                    elts[1].id == jvar
+                if not own:
+                    sees_beyond = True
+    ctx.ob("P/solve_affine/refusal-reads-right-hand-side", sees_rhs, loc,
+           "a refusal depends on the right-hand side (inconsistent systems can "
+           "be told apart)" if sees_rhs else
+           "no refusal after the elimination depends on the right-hand side: an "
+           "inconsistent system (x == 5, x == 6) cannot be told from a "
+           "consistent one and is 'solved' (x = 5)")
+    ctx.ob("P/solve_affine/refusal-reads-beyond-own-column", sees_beyond, loc,
+           "a refusal looks at more than the unknown's own column" if sees_beyond
+           else "every refusal looks only at the current unknown's column and "
+           "pivot entry: two unknowns that share their only equation "
+           "(x + y == n) both pass the 'exactly one non-zero row' test and are "
+           "both 'solved' (x = n, y = n)")
+
+
 def _solver(ctx, model):
     m, fn = model.func(f"{ALG}:solve_affine_equations_for")
     loc = m.loc(fn)
@@ -251,25 +424,78 @@ def _solver(ctx, model):
         raise AnalysisError("solve_affine_equations_for: result loop not found")
     lp = loops[0]
     body = lp.body
-    # statement order: uniqueness raise, |pivot| raise, then the divisions
-    idx_unique = idx_unit = idx_div = None
+    # every floor division in the loop divides by a matrix entry E for which,
+    # earlier in the same round, |E| != 1 has raised, and whose row index was
+    # unpacked from a where()-result whose length != 1 has raised
+    U = lambda n: ast.unparse(n).replace(" ", "")     # noqa: E731
+
+    def resolve(e, upto):
+        """follow plain name assignments made earlier in the loop body"""
+        for _ in range(4):
+            if isinstance(e, ast.Name):
+                val = None
+                for st in body[:upto]:
+                    if isinstance(st, ast.Assign) and len(st.targets) == 1 and \
+                            isinstance(st.targets[0], ast.Name) and \
+                            st.targets[0].id == e.id:
+                        val = st.value
+                if val is None:
+                    return e
+                e = val
+            else:
+                return e
+        return e
+
+    guards = []       # (index, test) of top-level  if <test>: raise
     for i, st in enumerate(body):
-        s = ast.unparse(st).replace(" ", "")
-        if isinstance(st, ast.If) and st.body and isinstance(st.body[0], ast.Raise):
-            t = ast.unparse(st.test).replace(" ", "")
-            if t == "len(nonz_row)!=1":
-                idx_unique = i
-            elif t == "abs(mat[nonz_row,j])!=1":
-                idx_unit = i
-        if "//div" in s and idx_div is None:
-            idx_div = i
-    ok = None not in (idx_unique, idx_unit, idx_div) and \
-        idx_unique < idx_unit < idx_div
+        if isinstance(st, ast.If) and st.body and isinstance(st.body[0],
+                                                               ast.Raise):
+            guards.append((i, st.test))
+    divs = []
+    for i, st in enumerate(body):
+        for n_ in ast.walk(st):
+            if isinstance(n_, ast.BinOp) and isinstance(n_.op, ast.FloorDiv):
+                divs.append((i, n_.right))
+    if not divs:
+        raise AnalysisError("solve_affine_equations_for: no division by the "
+                            "pivot found in the result loop")
+    ok = True
+    for i, den in divs:
+        E = resolve(den, i)
+        unit = False
+        for gi, t in guards:
+            if gi >= i:
+                continue
+            if isinstance(t, ast.Compare) and len(t.ops) == 1 and isinstance(
+                    t.ops[0], ast.NotEq) and U(t.comparators[0]) == "1" and \
+                    isinstance(t.left, ast.Call) and U(t.left.func) == "abs" and \
+                    U(resolve(t.left.args[0], gi)) == U(E):
+                unit = True
+        # the row index inside E
+        unique = False
+        if isinstance(E, ast.Subscript):
+            idx_names = {n_.id for n_ in ast.walk(E.slice)
+                         if isinstance(n_, ast.Name)}
+            # names unpacked from a where()-result
+            for k, st in enumerate(body[:i]):
+                if isinstance(st, ast.Assign) and isinstance(
+                        st.targets[0], ast.Tuple) and len(
+                        st.targets[0].elts) == 1 and isinstance(
+                        st.targets[0].elts[0], ast.Name) and \
+                        st.targets[0].elts[0].id in idx_names and \
+                        isinstance(st.value, ast.Name):
+                    src_name = st.value.id
+                    for gi, t in guards:
+                        if gi < k and U(t) == f"len({src_name})!=1":
+                            unique = True
+        ok = ok and unit and unique
     ctx.ob("P/solve_affine/refusals-dominate-division", ok, loc,
            "not-unique and |pivot| != 1 raise before any division by the pivot"
            if ok else
            "solve_affine_equations_for divides by the pivot without first "
            "refusing non-unique or non-unit pivots")
+    _solver_assembly(ctx, m, fn, loc)
+    _solver_refusals(ctx, m, fn, lp, loc)
     # the key dispatch of the matrix assembly ends in a refusal
     chains = [i for i in ast.walk(fn) if isinstance(i, ast.If)
               and "unknowns_set" in ast.unparse(i.test)]
